@@ -420,7 +420,7 @@ def decide(pid, P, tier, seed, sc, ov, r, fn_ranges, lt, t0, replay):
     write_evidence(ev_path, pid, tier, seed, ov, r, failures, units, t0, notes, extra=extra)
     n_ok = sum(1 for v in units.values() if v["success"])
     st = (bounded or {}).get("stats") or {}
-    log(f"OK property={pid} tier={tier}: {n_ok}/{len(units)} verification units discharged by verus/z3 ({r.smt_ms} ms solver, {r.wall_s:.1f} s wall), {len(collect_clauses(ov, pid))} own clauses; bounded stand-in: {st.get('evaluations')} inputs, no violation")
+    log(f"OK property={pid} tier={tier}: {n_ok}/{len(units)} verification units discharged by verus/z3 ({r.smt_ms} ms solver, {r.wall_s:.1f} s wall), {len(collect_clauses(ov, pid))} own clauses; bounded stand-in: " + (f"{st.get('evaluations')} inputs, no violation" if st.get('evaluations') else f"did not run ({str(st.get('rule') or (bounded or {}).get('error') or 'no output')[:160]})"))
     return 0
 
 
